@@ -599,7 +599,16 @@ func c02Exec(t *testing.T, sc *gen.Scenario, trace bool) *harness.Outcome {
 					continue
 				}
 				if a != *ref {
-					e.Violate("config_dependent_answer", "configs="+refName+"/"+cfgs[ci].name, "request %d (%+v): %s answered %+v, %s answered %+v", i, sc.Requests[i], refName, *ref, cfgs[ci].name, a)
+					rq := sc.Requests[i]
+					st := stateFor(sc, rq)
+					tags := e.engineTags(st, rq)
+					if g := e.grantTags(st, rq); !strings.Contains(tags, strings.TrimSpace(g)) || tags == "" {
+						tags += g
+					}
+					if n := len(st.Unevaluable(rq.Ctx)); n > 0 {
+						tags += " request_has_unevaluable_conditions"
+					}
+					e.Violate("config_dependent_answer", "configs="+refName+"/"+cfgs[ci].name+tags, "request %d (%+v): %s answered %+v, %s answered %+v", i, sc.Requests[i], refName, *ref, cfgs[ci].name, a)
 					return
 				}
 			}
